@@ -73,6 +73,10 @@ def check(c, item):
                     L.formulaToL3String(ast), sorted(set(n for _, n in undefined))), case)
                 continue
             states = STATES_INT if stochastic else STATES_DET
+            if not set(names) <= {'A', 'B', 'C'}:
+                # models over other species: the same value pool, dealt out by position
+                pool = [v for x_ in states for v in x_.values()]
+                states = [{s_: pool[(i_ * 5 + j_ * 3 + 1) % len(pool)] for j_, s_ in enumerate(names)} for i_ in range(len(states))]
             nontrivial = False
             for x in states:
                 env = dict(gparams); env.update(locals_); env.update({s: float(x.get(s, 0.0)) for s in species_ids})
@@ -148,6 +152,7 @@ def specs(tier):
     s2 = spec('massaction/after-failed-create', FAM.SP, x0, [ma(['A', 'B'], ['C'], 'kf'), ma(['C'], ['A', 'A'], 0.6), ma(['A', 'A'], ['B'], 0.3)], FAM.PARAMS)
     s2['after_failed_create'] = True
     out.append(s2)
+    out += FAM.big_specs(tier, delays_ok=False, rules_ok=False, hill_ok=False)    # (the Hill laws are known findings, keyed by family)
     return out
 
 
@@ -157,7 +162,7 @@ def run(ctx):
     pmap(check, items, ctx, nshards=128)
     ctx.bounds = dict(models=len(sp), exports=len(items), states=8)
     ctx.rule = ('E2: every single-reaction model of the family (each propensity type x numeric/named parameters x reactant and product '
-                'sequences (quick: length 0..2, thorough 0..4), 18 general rates covering each operator alone and nested) is written with '
+                'sequences (quick: length 0..2, thorough 0..4), 18 general rates covering each operator alone and nested) and rotations of a 13-reaction menu over 8 species (5..13 reactions per model) is written with '
                 'the real writer in deterministic and stochastic form; the file is read back with libsbml only: every identifier of every '
                 'kinetic law must be defined in the document, the law evaluated as plain SBML mathematics at 8 states (integers for the '
                 'stochastic export) must equal the model\'s own rate (stochastic form via hook H2) to 1e-10, and the stoichiometry attributes '
